@@ -143,7 +143,8 @@ def _apps(t, acc, seen, allacc=None):
                     allacc.append((ap, t))
         if allacc is not None and d.kind() == z3.Z3_OP_SEQ_CONCAT and t.num_args() >= 2:
             allacc.append((None, t))
-        if allacc is not None and d.kind() == z3.Z3_OP_SEQ_NTH and t.num_args() == 2 and not z3.is_int_value(t.arg(1)):
+        if allacc is not None and t.num_args() == 2 and (d.kind() == z3.Z3_OP_SEQ_NTH or d.name() in ("seq.nth_i", "seq.nth_u")) \
+                and not z3.is_int_value(t.arg(1)):
             allacc.append(("nth", t))
         for i in range(t.num_args()):
             _apps(t.arg(i), acc, seen, allacc)
